@@ -313,6 +313,19 @@ var c02amps = []c02amp{
 		subrs = append(subrs, []byte{140, 140, 21, 11}) // 1 1 rmoveto return
 		return c02cff(&cffSpec{charstrings: [][]byte{top}, subrs: subrs})
 	}},
+	{"cff-subr-recursion", dCFF, func(size int, th bool) []byte {
+		// size 0: local subr 0 calls itself; 1: subrs 0 and 1 call each other; 2: global subr 0 calls itself
+		call := func(idx int) []byte { return []byte{byte(idx + 32), 10} }
+		top := append(call(0), 14)
+		switch size {
+		case 0:
+			return c02cff(&cffSpec{charstrings: [][]byte{top}, subrs: [][]byte{append(call(0), 11)}})
+		case 1:
+			return c02cff(&cffSpec{charstrings: [][]byte{top}, subrs: [][]byte{append(call(1), 11), append(call(0), 11)}})
+		}
+		g := []byte{byte(0 + 32), 29, byte(0 + 32), 29, 11} // callgsubr twice
+		return c02cff(&cffSpec{charstrings: [][]byte{{byte(0 + 32), 29, 14}}, gsubrs: [][]byte{g}})
+	}},
 	{"cff-dict-operand-flood", dCFF, func(size int, th bool) []byte {
 		// Private DICT consisting of operands only (one byte each), then an operator
 		n := pick3(size, 1000, 20000, 200000)
@@ -345,6 +358,16 @@ var c02amps = []c02amp{
 		n := pick3(size, 65537, 1<<20, 0x10FFFF)
 		w := &bw{}
 		w.u16(12, 0).u32(28, 0, 1).u32(0, n-1, 0)
+		return c02cmapWrap(3, 10, w.b)
+	}},
+	{"cmap12-many-maximal-groups", dCmap, func(size int, th bool) []byte {
+		// g groups of 0x10FFFF codes each (the largest a group may be), far beyond the 65536-code cap
+		g := pick3(size, 1, 4, 12)
+		w := &bw{}
+		w.u16(12, 0).u32(16+12*g, 0, g)
+		for i := 0; i < g; i++ {
+			w.u32(i*0x110000, i*0x110000+0x10FFFE, 1)
+		}
 		return c02cmapWrap(3, 10, w.b)
 	}},
 	{"cmap-k-records-one-full-format4", dCmap, func(size int, th bool) []byte {
